@@ -564,10 +564,14 @@ impl Storage {
             )
             .expect("batch put should be ok");
         let tx_hash = tx.calc_tx_hash();
-        let tx_index = u32::max_value();
-        let key = Key::TxHash(&tx_hash).into_vec();
-        let value = Value::Transaction(block_number, tx_index as TxIndex, tx);
-        batch.put_kv(key, value).expect("batch put should be ok");
+        // Do not overwrite the transaction if it has been stored by `filter_block`, since
+        // the real transaction index is required when its outputs are spent or rolled back.
+        if self.get_transaction(&tx_hash).is_none() {
+            let tx_index = u32::max_value();
+            let key = Key::TxHash(&tx_hash).into_vec();
+            let value = Value::Transaction(block_number, tx_index as TxIndex, tx);
+            batch.put_kv(key, value).expect("batch put should be ok");
+        }
         batch.commit().expect("batch commit should be ok");
     }
 
